@@ -25,7 +25,7 @@ Record line := {
   l_label : option (list bool);          (* None: the root; Some []: end-of-key label *)
   l_id : nat;
   l_step : nat;                          (* bits; 0: not printed *)
-  l_fan : nat;                           (* number of labels; printed when > 1 *)
+  l_fan : nat;                           (* number of labels when > 1, else 0: not printed *)
   l_val : option (option (list byte))    (* None: inner node; Some None: leaf, nil value *)
 }.
 
@@ -76,7 +76,7 @@ Fixpoint render_tree (T : trie) (ind : nat) (lbl : option (list bool)) (t : tree
                        Ok (a ++ b)
                    end) ch;
       Ok ({| l_indent := ind; l_label := lbl; l_id := id; l_step := step_bits step pfx;
-             l_fan := length ch; l_val := None |} :: sub)
+             l_fan := (if 1 <? length ch then length ch else 0); l_val := None |} :: sub)
   end.
 
 (* String(): "" for the empty trie *)
